@@ -394,12 +394,14 @@ class TextXVisitor(RRELVisitor):
     def _resolve_rule_refs(self, grammar_parser, model_parser):
         """Resolves parser ParsingExpression crossrefs."""
 
-        def _resolve_rule(rule):
+        def _resolve_rule(rule, ref_chain=frozenset()):
             """
             Recursively resolve peg rule references.
 
             Args:
                 rule(ParsingExpression or RuleCrossRef)
+                ref_chain(frozenset): names of the rules reached so far by
+                    following bare rule references only (`A: B; B: C;`)
             """
             if not isinstance(rule, RuleCrossRef) and rule in resolved_rules:
                 return rule
@@ -414,7 +416,19 @@ class TextXVisitor(RRELVisitor):
                 if rule_name in model_parser.metamodel:
                     rule = model_parser.metamodel[rule_name]._tx_peg_rule
                     if isinstance(rule, RuleCrossRef):
-                        rule = _resolve_rule(rule)
+                        # The referenced rule is itself just a reference to
+                        # another rule. Follow it, but detect reference cycles
+                        # (e.g. `A: B; B: A;`) which would never end.
+                        if rule_name in ref_chain:
+                            line, col = grammar_parser.pos_to_linecol(rule.position)
+                            raise TextXSemanticError(
+                                f'Rule "{rule_name}" refers to itself through rule '
+                                f"references only at position {(line, col)}.",
+                                line,
+                                col,
+                                filename=model_parser.metamodel.file_name,
+                            )
+                        rule = _resolve_rule(rule, ref_chain | {rule_name})
                         model_parser.metamodel[rule_name]._tx_peg_rule = rule
                     if suppress:
                         # Special case. Suppression on rule reference.
